@@ -12,5 +12,6 @@ import (
 
 // VerifC14MakeConfig is ServiceMonitor.makeConfig.
 func VerifC14MakeConfig(m *ServiceMonitor, checks []*api.HealthCheck) string {
-	return m.makeConfig(checks)
+	cfg, _ := m.makeConfig(checks)
+	return cfg
 }
